@@ -18,9 +18,10 @@ ItemSpaces (through .itemspaces, recursively) and the validity of every space / 
 About one case in ten uses a vocabulary outside Dyn/Model.v (a parameter formula that calls a cells of a static
 space, so that the ItemSpace hangs below that cells in the trace graph); those go through the differential (P) only.
 
-Known defects of the pinned tree (triggers avoided by the generator, see dynlib.py; witnesses
-corpus/C07/finding_*.json replayed through the same (P) oracle; ledger findings.d/C07.txt):
-D16 (+D38 generalisations), D14, D15, D18."""
+Known defects of the tree (triggers avoided by the generator, see dynlib.py; witnesses
+corpus/C07/finding_*.json replayed through the same (P) oracle): D38 (parameter-formula change), D39 (deleted
+foreign base).  D14 D15 D16 D18 are repaired in /repo (ledger: fixed); their witnesses keep running and a
+failure of one of them is a (P) failure."""
 import os, json, glob, collections
 import fw
 import dynlib
@@ -31,12 +32,11 @@ CORPUS = os.path.join(fw.VERIF, "corpus", "C07")
 TRUSTED = ["CPython inspect.Signature.bind/apply_defaults is modelled by Dyn.Model.bind (compared on every request)",
            "weakref.WeakValueDictionary (dynamic_cache): handle re-attachment is observed while the harness holds the handle; "
            "in the model a handle IS the dynamic key, so 'an old handle raises or denotes the re-created instance' rests on the tie",
-           "value caching inside an instance follows Exec (C01/C06); the model clears the whole instance cache where the code "
-           "clears the cells of one dynamic space and their trace-graph dependents (not observable through values)"]
+           "value caching inside an instance follows Exec (C01/C06)"]
 ASSUMPTIONS = ["formulas are over the generated expression language (ints, names, + - *, conditional, sibling calls, child-space calls); "
                "parameter formulas depend on their arguments only and call no cells",
                "ItemSpaces are requested from outside formulas; reference values are ints; no inheritance between static spaces",
-               "triggers of the recorded defects D14 D15 D16 D18 D38 are avoided by the generator (dynlib.py doc)"]
+               "triggers of the recorded defects D38 D39 are avoided by the generator (dynlib.py doc)"]
 
 CASE_TYPE = "tie_case"
 
@@ -124,6 +124,7 @@ def run(tier, seed, rng):
     # ---- (P)
     dist = collections.Counter()
     outs = collections.Counter()
+    met = collections.Counter()
     nfocus = 0
     for c, r in zip(cases, res):
         fails = oracle(c, r)
@@ -133,9 +134,18 @@ def run(tier, seed, rng):
             continue
         if fails:
             out.p_failures.append({"case": c, "detail": "; ".join(fails)[:2000], "script": script_of(c)})
+        prev = []
         for o, st in zip(c["ops"], r.get("steps", [])):
             dist[o["op"]] += 1
             outs[st["out"][0]] += 1
+            # edits whose deletions reach an ItemSpace of ANOTHER space (a copy of a child space / foreign base):
+            # the behaviour repaired by the D14/D16 fixes
+            ed = o.get("p") if "p" in o else (o["q"][:-1] if "q" in o else None)
+            if ed is not None and st["out"][0] == "done" and o["op"] not in ("clearitems", "delitem"):
+                now = [json.dumps(k) for k in st["live"]]
+                if any(k[0] != ed and json.dumps(k) not in now for k in prev):
+                    met[o["op"]] += 1
+            prev = st["live"]
         if "steps" in r:
             if focus(c, r):
                 nfocus += 1
@@ -171,9 +181,10 @@ def run(tier, seed, rng):
     out.distribution = {"cases": len(cases), "witnesses": len(witnesses), "regressions": len(regress),
                         "differential_only_cases": sum(1 for c in cases if c.get("ponly")),
                         "operations": dict(dist), "outputs": dict(outs),
-                        "precautions_before_unpropagated_edits": precautions}
-    out.notes.append("generator avoids the triggers of D14 D15 D16 D18 D38: %d edits were preceded by clear_items on every "
-                     "parametrised space" % precautions)
+                        "precautions_before_unpropagated_edits": precautions,
+                        "edits_meeting_live_copies": dict(met)}
+    out.notes.append("generator avoids the triggers of D38 (setparams on a child space / foreign base) and D39 (delspace of a "
+                     "space named as 'base'): %d edits were preceded by clear_items on every parametrised space" % precautions)
     return out
 
 
